@@ -387,6 +387,14 @@ func runOn(w *hist.World, c *Case) (*caseRes, *violation) {
 	for i := 1; i < c.Gap; i++ {
 		w.RunBlock(sim.BlockSpec{GapSecs: 5})
 	}
+	if c.Opts.Restart && !r0.Panicked {
+		// the subject node was restarted between the execution and the resubmissions (real Prepare() on its data
+		// directory, the tx index as committed): what it remembers of the executed transaction is what is on disk
+		if nr, rerr := sim.Restart(r0, w.C, "c05rs"); rerr == nil {
+			w.R[0], r0 = nr, nr
+			res.kind += "+restarted"
+		}
+	}
 	for i := range c.Encs {
 		e := &c.Encs[i]
 		er := encRes{op: e.Op, class: classOf(c, po, e), differ: !bytes.Equal(e.Bytes, c.Orig)}
@@ -522,6 +530,7 @@ func TestC05(t *testing.T) {
 		}
 		// where the genesis puts the fork: block 1 (mostly), a height the history never reaches, or nowhere
 		c.Opts.Fork = []int{0, 0, 0, 0, 1, 2}[u.N(6, "fork")]
+		c.Opts.Restart = u.N(4, "restart") == 0
 		// OLVM carries the nonce-based protection and the full operator set even while the known
 		// finding is excluded: give it a fixed share of the cases
 		if u.N(5, "olvm") < 2 && c.Opts.Fork == 0 {
